@@ -34,7 +34,24 @@ def impl_units(text):
         u = parse_units(text)
     except Exception as e:  # noqa
         return ("err", repr(e)[:120])
-    return ("ok", (u.sys["space"], u.sys["time"], u.sys["quantity"]), (u.dim["space"], u.dim["time"], u.dim["quantity"]))
+    r1 = ("ok", (u.sys["space"], u.sys["time"], u.sys["quantity"]), (u.dim["space"], u.dim["time"], u.dim["quantity"]))
+    # the reading of a text is a function of the text: what a caller does with the returned object (it is mutable through
+    # its public setters) must not change what the next reading of the same text gives
+    try:
+        u.dim["space"] = u.dim["space"] + 1
+        u.dim["time"] = u.dim["time"] - 2
+        u.sys["space"] = "km" if u.sys["space"] != "km" else "nm"
+        u.sys["quantity"] = "kmol" if u.sys["quantity"] != "kmol" else "mol"
+    except Exception:  # noqa
+        pass
+    try:
+        u2 = parse_units(text)
+        r2 = ("ok", (u2.sys["space"], u2.sys["time"], u2.sys["quantity"]), (u2.dim["space"], u2.dim["time"], u2.dim["quantity"]))
+    except Exception as e:  # noqa
+        r2 = ("err", repr(e)[:120])
+    if r2 != r1:
+        return ("unstable", r1, r2)
+    return r1
 
 
 def same(spec, impl):
@@ -147,7 +164,9 @@ def run(tier, selftest=False, only=None):
     for text, sp in zip(texts, ev["texts"]):
         rep.case(text)
         im = impl_units(text)
-        if not same(sp, im):
+        if im[0] == "unstable":
+            rep.violation("texts", "text:reading-depends-on-what-was-done-with-an-earlier-result", {"text": text, "first": im[1], "second": im[2]})
+        elif not same(sp, im):
             rep.violation("texts", "text:%s:%s" % ("accepted-malformed" if not sp["ok"] else "meaning", classify(text)),
                           {"text": text, "spec": sp, "impl": im, "in_grammar": sp["rec"]})
     rep.extra["three_factor_texts"] = len(three)
